@@ -146,6 +146,57 @@ CLAIMED = {
 }
 CLAIMED = {k: {"text": v["text"], "design_ref": v["ref"], "note": v["note"], "technique": v["tech"]} for k, v in CLAIMED.items()}
 
+# ---- additions of round 6 (appended to the texts above) ---------------------------------------------------------------------
+ADD = {
+ "C01": (" Round 6: Lemma A for UPDATE, MERGE and SELECT ... INTO (c01_exact_on_update_merge_select_into; Ast/SpecDml.v, Tree/RenderDml.v, "
+         "Tree/LemmaADml.v; layout validated against the parser and implementation compared with the specification by suite "
+         "T3-render-dml / S-dml): exact for every trivia, size and depth of the embedded queries, except UPDATE with a sub-query in WHERE, "
+         "where the proof attempt found defect K-C01-7 (c01_update_where_exact_iff gives the exact class, c01_update_reports_from_tables_only "
+         "what the code reports). Lemma A with expression select items - functions, arithmetic, CASE, CAST, window functions, aliased or "
+         "not, any depth, at every nesting level (c01_exact_on_rendered_core_with_expressions; Tree/RenderExpr.v, Tree/LemmaAExpr.v, suite T3-render-x).",
+         " Expressions are now inside the proved fragment; join groups, CTE chains and recursion are not."),
+ "C02": (" Round 6: expression items (c02_expression_item_sources: an aliased expression of any depth yields exactly its column references; "
+         "c02_exact_on_single_select_with_expressions: the whole pipeline = specification for INSERT [cols] / CTAS / VIEW over one SELECT "
+         "with star / column / aliased expression items; layout by suites T3-render-expr and T3-render-x). UPDATE and MERGE at column "
+         "level (c02_exact_on_update_and_merge_partial, Ast/SpecDmlCols.v, Tree/LemmaBDml.v; implementation compared with the "
+         "specification by suite S-dml-columns); the proof attempt found K-C02-12 (alias of an UPDATE target not resolved) and K-C02-13 "
+         "(MERGE ignores the qualifier of a source column).",
+         " MERGE with a derived-table source and UPDATE over derived tables: tested, not proved."),
+ "C05": (" Round 6: the T-SQL batch splitter is modelled on the parser's FILE tree (Tree/TsqlSplit.v: statement list, split_tsql with its "
+         "raw-text keyed cache, the statement loop through the cache) and proved: a no-semicolon batch (also with semicolons, GO batches) "
+         "lists exactly its statements in order (c05_tsql_statement_list*), the cache returns the last segment with a raw text "
+         "(c05_tsql_cache_lookup), and with a provider without metadata the script is analysed as each statement on its own "
+         "(c05_tsql_script_is_its_statements, under raw_determines - shown necessary). Tie: suite T2-tsql on the real file trees.",
+         " The T-SQL splitter is no longer an oracle; the parser producing the file tree is."),
+ "C09": (" Round 6: as corollaries of Lemma A / Lemma B, any two non-vertica dialects whose parser lays a core statement out as "
+         "Tree/Render.v does report the same (specified) tables and, on the single-SELECT fragment, the same column pairs "
+         "(c09_core_tables_agree_across_dialects, c09_single_select_columns_agree_across_dialects); the check measures per dialect on "
+         "how many generated statements the real parser's tree equals the rendering (evidence: render_layout_agrees). Streams added: "
+         "set-operation operands parenthesised in every combination at every query position; K-C09-10 recorded.", ""),
+ "C10": (" Round 6: the contract is proved on ALL segment trees, every statement type, environment and mode "
+         "(c10_total_on_all_trees_partial, Tree/Total*.v, 2 500 lines): under the executable predicate escape_free (seven local shape "
+         "conditions, each shown necessary by a counterexample tree; evaluated by the check on every parse tree of the run) analysis "
+         "ends in a result, one of the library's exceptions or - not yet excluded for top-level INSERT/CREATE/UPDATE/MERGE - ValueError; "
+         "never IndexError / AttributeError / KeyError, and the explicit fuel always suffices. No ValueError either for query "
+         "statements without nested write sites (c10_total_queries_strict) and outside the lineage extractors. Script level: statement "
+         "loop and assembly total under the RENAME guard script_rn_ok (c10_script_total_partial; KeyError never: c10_build_no_key_error; "
+         "without the guard exactly NetworkXError: c10_script_total_unguarded, K-C10-5). The proof found a real crash (tsql MERGE TOP (n) "
+         "..: IndexError), repaired by fix a8666bf. Stream added: names spelled like variables/parameters in every identifier position x 20 dialects.",
+         " escape_free / script_rn_ok are hypotheses about the parser's trees, monitored on every tree of every run."),
+ "C11": (" Round 6: repetitions on the same provider OBJECT with runs in between (also failing ones that created tables).", ""),
+ "C13": (" Round 6: both bundled providers compared on every run (tables findable under another schema).", ""),
+ "C14": (" Round 6: CTE homonym stream (a qualified table named like a CTE in scope, default = the written schema).", ""),
+ "C15": (" Round 6: scope oracle on op histories (nested open refused whether by call or by entering the manager directly; own "
+         "override read inside the scope).", ""),
+ "C16": (" Round 6: letters outside ASCII (property oracle on the implementation; the Coq model stays ASCII).", ""),
+ "C17": (" Round 6: the application object serves HISTORIES of requests between which root and working directory change "
+         "(Web/History.v: c17_history_contained - whatever any request of any history may read lies under the root in force when it "
+         "arrives; c17_history_answers_are_stateless); history suite against the real app with genuinely different roots.", ""),
+}
+for _pid, (_t, _n) in ADD.items():
+    CLAIMED[_pid]["text"] = CLAIMED[_pid].get("text", "") + _t
+    CLAIMED[_pid]["note"] = CLAIMED[_pid].get("note", "") + _n
+
 checks = []
 for pid, c in CLAIMED.items():
     checks.append({
@@ -180,7 +231,7 @@ manifest = {
     }],
     "checks": checks,
     "not_applicable": na,
-    "notes": "fix commits in /repo: b8899d3, d6879c7, 1b08581, 0694b59, 335c6c0, a908979, baca01e, c90fd36, e020d83.  known_findings.json lists recorded defects (status known / fixed).",
+    "notes": "fix commits in /repo: a8666bf, b8899d3, d6879c7, 1b08581, 0694b59, 335c6c0, a908979, baca01e, c90fd36, e020d83.  known_findings.json lists recorded defects (status known / fixed).",
 }
 (VERIF / "MANIFEST.json").write_text(json.dumps(manifest, indent=1) + "\n")
 print("claimed", sorted(CLAIMED), "not claimed", len(na))
